@@ -430,7 +430,7 @@ V("C20-cdist-euclidean", ["C20", "C15", "C04"], "kmeans", "return scipy.spatial.
 V("C20-cdist-transposed", ["C20", "C04"], "kmeans", "return scipy.spatial.distance.cdist(means, x, metric='sqeuclidean')", "return scipy.spatial.distance.cdist(x, means, metric='sqeuclidean')", "SciPy arm returns (samples, clusters)")
 V("C20-dask-sum-axis0", ["C20", "C04"], "kmeans", "distances.append(np.sum((means[i] - x) ** 2, axis=-1))", "distances.append(np.sum((means[i] - x) ** 2, axis=0))", "Dask arm sums over the samples")
 V("C20-means-aliased", ["C20", "C19"], "gmm", "self.means = copy.deepcopy(kmeans_machine.centroids_)", "self.means = kmeans_machine.centroids_", "GMM means alias the k-means centroids")
-V("C20-sq-partial-mean", ["C20", "C04"], "kmeans", "variances_sum[i] = np.sum(data[closest_centroid_indices == i] ** 2, axis=0)", "variances_sum[i] = np.mean(data[closest_centroid_indices == i] ** 2, axis=0)", "per-block mean of squares summed over blocks")
+V("C20-sq-partial-mean", ["C20", "C04"], "kmeans", "variances_sum[i] = np.sum(np.square(data[closest_centroid_indices == i], dtype=float), axis=0)", "variances_sum[i] = np.mean(np.square(data[closest_centroid_indices == i], dtype=float), axis=0)", "per-block mean of squares summed over blocks")
 V("C20-fold-first-block", ["C20", "C04"], "kmeans", "    means_sum = [s[1] for s in stats]", "    means_sum = [s[1] for s in stats[:1]]", "first-order sums of the first block only")
 V("C20-other-data", ["C20"], "gmm", "self.variances, self.weights = kmeans_machine.get_variances_and_weights_for_each_cluster(data)", "self.variances, self.weights = kmeans_machine.get_variances_and_weights_for_each_cluster(data[:len(data) // 2])", "cluster statistics from half of the data")
 V("C20-vectorised-distance", ["C20"], "kmeans", "        distances = []\n        for i in range(means.shape[0]):\n            distances.append(np.sum((means[i] - x) ** 2, axis=-1))\n        return da.vstack(distances)", "        return da.sum((means[:, None, :] - x[None, :, :]) ** 2, axis=-1)", "Dask arm vectorised by broadcasting", kind="benign")
@@ -554,3 +554,11 @@ V("S2-unwrap-else-form", ["C08"], "linear_scoring", "    if ubm.trainer == 'map'
 V("S2-snorm-coef", ["C10"], "ivector", "Sij - 2 * Fij", "Sij - 3 * Fij", "cross term of the centred second-order statistics with coefficient 3")
 V("S2-blend-coef", ["C05"], "gmm", "np.multiply(1 - alpha[:, None], machine.ubm.means)", "np.multiply(2 - alpha[:, None], machine.ubm.means)", "prior mean weighted by (2 - alpha)")
 V("S2-mlvar-coef", ["C03"], "gmm", "(statistics.sum_pxx - 2 * machine.means", "(statistics.sum_pxx - 3 * machine.means", "cross term of the ML variance with coefficient 3")
+
+# ----------------------------------------------------------------------------- DTYPE.raw (second seeding round; D13)
+V("DT-gmm-square-native", ["C02"], "gmm", "sum_pxx.append(np.sum(px * data, axis=0))", "sum_pxx.append(np.sum(responsibility[i, :, None] * (data * data), axis=0))", "samples squared in their own dtype before the responsibility weighting (wraps for int16 / uint8 input)")
+V("DT-gmm-square-hoisted", ["C02"], "gmm", "    sum_px, sum_pxx = ([], [])\n", "    sum_px, sum_pxx = ([], [])\n    data_squared = np.square(data)\n    assert data_squared is not None\n", "np.square(data) in the input dtype", kind="skip")
+V("DT-gmm-multiply-spelled", ["C02"], "gmm", "sum_pxx.append(np.sum(px * data, axis=0))", "sum_pxx.append(np.sum(np.multiply(px, data), axis=0))", "same product spelled with np.multiply (px is float)", kind="benign")
+V("DT-kmeans-square-native", ["C20"], "kmeans", "np.square(data[closest_centroid_indices == i], dtype=float)", "data[closest_centroid_indices == i] ** 2", "D13 re-introduced: per-cluster squares in the input dtype")
+V("DT-kmeans-astype", ["C20"], "kmeans", "np.square(data[closest_centroid_indices == i], dtype=float)", "data[closest_centroid_indices == i].astype(float) ** 2", "conversion spelled with astype(float)", kind="benign")
+V("DT-fa-intbuffer", ["C07", "C09"], "factor_analysis", "        latent_x_i = []\n        for x_i in X_i:\n", "        latent_x_i = []\n        buf = np.zeros_like(X_i[0].n)\n        buf[0] = self._compute_fn_x_ih(X_i[0], latent_z_i=latent_z_i, latent_y_i=latent_y_i)[0]\n        for x_i in X_i:\n", "float residual stored into a buffer with the dtype of the counts")
